@@ -69,7 +69,7 @@ def json_structured(machine, doc):
     add("payload.%s:deleted" % PAYLOAD_KEY[machine], ["payload", PAYLOAD_KEY[machine]], _DEL)
     for f in ("id", "type", "date", "respin"):
         add("compose.%s:deleted" % f, ["payload", "compose", f], _DEL)
-    for f, bads in (("id", [None, 123, "", "abc"]), ("date", [None, 20150522, "2015", "2015052a"]), ("type", [None, "prod", "Production"]),
+    for f, bads in (("id", [None, 123, "", "abc"]), ("date", [None, 20150522, "2015", "2015052a", "2015052", "201552", "20150522 "]), ("type", [None, "prod", "Production"]),
                     ("respin", [None, "0", 1.5]), ("label", pools.LABELS_BAD)):
         for b in bads:
             add("compose.%s:domain" % f, ["payload", "compose", f], b)
